@@ -1,4 +1,5 @@
 import NodisVerif.Model.Handler3
+import NodisVerif.Model.Handler4
 import NodisVerif.Model.Handler2
 import NodisVerif.Model.RespReader
 import NodisVerif.Model.Conn
@@ -39,20 +40,21 @@ def constsOk (cs : List (String × Int)) : Bool :=
 
 /-! ## the dispatch table -/
 
-/-- commands handled outside the three handler tables of the model: the connection state machine
+/-- commands handled outside the four handler tables of the model: the connection state machine
     (Model/Conn.lean) and the blocking pops (Model/Block.lean + the list handlers) -/
 def connCommands : List String := ["MULTI", "EXEC", "DISCARD", "WATCH", "UNWATCH", "BLPOP", "BRPOP"]
 
-/-- commands of the source that have no model of their replies (covered by C16's framing sweep and
-    C17's hostile scenario on the implementation only; GEOADD's effect on watchers and the change feed
-    is covered by closed loops on the implementation) -/
-def unmodelled : List String :=
-  ["CLIENT", "CONFIG", "QUIT", "SAVE", "INFO", "GEOADD", "GEODIST", "GEOHASH", "GEOPOS", "GEORADIUS", "GEORADIUSBYMEMBER"]
+/-- commands of the source that have no model of their replies: none any more (CLIENT, CONFIG, QUIT,
+    SAVE, INFO and the GEO family are `Handler4.table4`; what of their replies is relational - the
+    members and distances of radius queries, decimal coordinate text, INFO's variable sections - is said
+    in Model/Handler4.lean) -/
+def unmodelled : List String := []
 
 def modelKnows (name : String) : Bool :=
-  (Handler.table1 name []).isSome || (Handler2.table2 name []).isSome || (Handler3.table3 name []).isSome
+  (Handler.table1 name []).isSome || (Handler2.table2 name []).isSome || (Handler3.table3 name []).isSome ||
+  (Handler4.table4 name []).isSome
 
-/-- the command names of the model's three handler tables (checked against the tables once, below) -/
+/-- the command names of the model's four handler tables (checked against the tables once, below) -/
 def modelledNames : List String :=
   ["DBSIZE", "PING", "ECHO", "FLUSHDB", "FLUSHALL", "DEL", "UNLINK", "EXISTS", "EXPIRE", "EXPIREAT",
    "KEYS", "RANDOMKEY", "TTL", "PTTL", "PERSIST", "RENAME", "RENAMENX", "TYPE", "SCAN", "SET", "MSET",
@@ -64,7 +66,8 @@ def modelledNames : List String :=
    "HVALS", "LPUSH", "RPUSH", "LPOP", "RPOP", "LLEN", "LINDEX", "LINSERT", "LPUSHX", "RPUSHX", "LREM",
    "LTRIM", "LSET", "LRANGE", "LPOPRPUSH", "RPOPLPUSH", "ZADD", "ZCARD", "ZRANK", "ZREVRANK", "ZSCORE",
    "ZINCRBY", "ZRANGE", "ZREVRANGE", "ZRANGEBYSCORE", "ZREVRANGEBYSCORE", "ZREM", "ZCOUNT",
-   "ZREMRANGEBYRANK", "ZREMRANGEBYSCORE", "ZCLEAR", "ZUNIONSTORE", "ZINTERSTORE", "ZEXISTS", "ZSCAN"]
+   "ZREMRANGEBYRANK", "ZREMRANGEBYSCORE", "ZCLEAR", "ZUNIONSTORE", "ZINTERSTORE", "ZEXISTS", "ZSCAN",
+   "CLIENT", "CONFIG", "QUIT", "SAVE", "INFO", "GEOADD", "GEODIST", "GEOHASH", "GEOPOS", "GEORADIUS", "GEORADIUSBYMEMBER"]
 
 /-- every listed name is a command of the model's tables (evaluated by the kernel when the library is built) -/
 theorem modelledNames_known : modelledNames.all modelKnows = true := by decide +kernel
